@@ -26,7 +26,7 @@ class Config(object):
 
     def __init__(self, seed=0, origin=(0.0, 0.0, 0.0), dx0=(0.125, 0.25, 0.5),
                  payload="tame", trailing_blank=True, long_ratio=False,
-                 file_gaps=False, time=None, numfmt="repr", final_newline=True, ratios=None):
+                 file_gaps=False, time=None, numfmt="repr", final_newline=True, ratios=None, file_base=0):
         self.seed = seed
         self.origin = tuple(origin)
         self.dx0 = tuple(dx0)
@@ -42,6 +42,9 @@ class Config(object):
         # FALSE: the level headers and the global header end with their last character, not with a line end (legal: nothing
         # follows the last row)
         self.final_newline = final_newline
+        # number of the first binary file: AMReX pads file numbers to five digits AT LEAST, so a writer with more than 100000
+        # ranks produces Cell_D_99999 next to Cell_D_100000 -- names of different lengths, whose string order is not their number's
+        self.file_base = file_base
         # refinement ratio between consecutive levels (spec/Refine.tla): None = 2 everywhere; otherwise a tuple over {2, 4}, one
         # entry per level jump.  A level's cells are rfac(cfg, lv) = ratios[0] * .. * ratios[lv-1] times finer than level 0
         self.ratios = tuple(ratios) if ratios else None
@@ -79,7 +82,8 @@ class Config(object):
                       trailing_blank=rng.random() < 0.7, long_ratio=rng.random() < 0.3,
                       file_gaps=rng.random() < 0.3,
                       time=rng.choice([0.0, 1.3924182125972017e-08, -2.5, 1e+22, 0.1]), numfmt=numfmt,
-                      final_newline=random_final_newline(origin, dx0))
+                      final_newline=random_final_newline(origin, dx0),
+                      file_base=[0, 0, 0, 99998, 99999, 100000][int(abs(hash((tuple(dx0), tuple(origin), 7)))) % 6])
 
 
 def random_final_newline(origin, dx0):
@@ -178,7 +182,7 @@ def box_shape(box):
 
 def file_name(f, cfg):
     n = (f - 1) * 2 + 1 if cfg.file_gaps else (f - 1)
-    return "Cell_D_%05d" % n
+    return "Cell_D_%05d" % (n + getattr(cfg, "file_base", 0))
 
 
 def rfac(ratios, lv):
